@@ -320,4 +320,272 @@ theorem cum_weight_at (l : List (Q × Q)) (v : Q) :
   grind
 
 
+
+theorem sortWith_eq (xs ws : List Q) (h : xs.length = ws.length) :
+    sortWith xs ws = ((Spec.Agg.sortPts (xs.zip ws)).map (·.1), (Spec.Agg.sortPts (xs.zip ws)).map (·.2)) := by
+  have := argsort_gather xs ws h
+  rw [isort_leFst] at this
+  simp only [sortWith, gatherBy, ← this, List.map_map, Function.comp_def]
+
+/-- weighted path of `_wasserstein_compute`: sorted cumulative weights at the `searchsorted` index,
+    over the total weight, is the weighted empirical CDF of the unsorted sample. -/
+theorem wCdf_weighted (xs ws q : List Q) (h : xs.length = ws.length) :
+    wCdf xs (some ws) q = q.map (Spec.Agg.cdf (xs.zip ws)) := by
+  simp only [wCdf, sortWith_eq xs ws h]
+  apply List.map_congr_left; intro v _
+  have := cum_weight_at (xs.zip ws) v
+  simp only at this
+  rw [this, Spec.Agg.cdf, sum_perm ((sortPts_perm (xs.zip ws)).map _)]
+
+theorem sum_snd_ones (m : List (Q × Q)) (h : ∀ p ∈ m, p.2 = 1) : (m.map (·.2)).sum = (m.length : Q) := by
+  induction m with
+  | nil => simp
+  | cons p m ih =>
+    simp only [List.map_cons, List.sum_cons, List.length_cons]
+    rw [ih (fun q hq => h q (List.mem_cons_of_mem _ hq)), h p (List.mem_cons_self ..)]
+    push_cast; grind
+
+/-- unweighted path: `searchsorted index / n` is the CDF with unit weights. -/
+theorem wCdf_unweighted (xs q : List Q) :
+    wCdf xs none q = q.map (Spec.Agg.cdf (xs.zip (xs.map fun _ => 1))) := by
+  let ones := xs.map fun _ => (1 : Q)
+  have hl : xs.length = ones.length := by simp [ones]
+  have hs := sortWith_eq xs ones hl
+  simp only [sortWith, Prod.mk.injEq] at hs
+  simp only [wCdf, hs.1]
+  apply List.map_congr_left; intro v _
+  have hone : ∀ p ∈ xs.zip ones, p.2 = 1 := by
+    intro p hp
+    have := (List.of_mem_zip hp).2
+    simp [ones] at this
+    exact this.2.symm
+  have hk : searchsortedRight ((Spec.Agg.sortPts (xs.zip ones)).map (·.1)) v
+      = ((xs.zip ones).filter fun p => decide (p.1 ≤ v)).length := by
+    simp only [searchsortedRight, List.takeWhile_map, List.length_map, Function.comp_def]
+    rw [takeWhile_eq_filter_of_sorted v _ (sortPts_sorted _)]
+    exact ((sortPts_perm (xs.zip ones)).filter _).length_eq
+  rw [hk, Spec.Agg.cdf, sum_snd_ones _ (fun p hp => hone p (List.mem_filter.mp hp).1), sum_snd_ones _ hone]
+  simp [ones]
+
+theorem w1_sum (f g : Q → Q) (px py : List (Q × Q)) (hf : f = Spec.Agg.cdf px) (hg : g = Spec.Agg.cdf py) :
+    ∀ l : List Q, (List.zipWith (· * ·) (List.zipWith (fun a b => qabs (a - b)) (l.dropLast.map f) (l.dropLast.map g)) (diffs l)).sum
+      = Spec.Agg.w1On px py l
+  | [] => rfl
+  | [_] => rfl
+  | a :: b :: l => by
+    have ih := w1_sum f g px py hf hg (b :: l)
+    simp only [List.dropLast_cons_cons, List.map_cons, List.zipWith_cons_cons, diffs, List.sum_cons, Spec.Agg.w1On]
+    rw [ih, hf, hg]
+    rfl
+
+
+/-! ### extended scalars, guarded denominators, extrema -/
+
+theorem xdiv_val (a b : Q) (h : b ≠ 0) : xdiv a b = .val (a / b) := by simp [xdiv, h]
+
+theorem xsum_vals (l : List Q) : xsum (l.map XQ.val) = .val l.sum := by
+  induction l with
+  | nil => rfl
+  | cons a l ih => simp only [xsum, List.map_cons, List.foldr_cons] at ih ⊢; rw [ih]; rfl
+
+theorem xmean_vals (l : List Q) (h : l ≠ []) : xmean (l.map XQ.val) = .val (l.sum / (l.length : Q)) := by
+  have : (l.length : Q) ≠ 0 := natCast_ne_zero (by simpa using h)
+  simp [xmean, xsum_vals, xdivX, xdiv_val _ _ this]
+
+/-- the guarded denominator of `_mean_squared_error_compute` is the weight itself once it is at least `eps`. -/
+theorem mse_den (sw : Q) (h : eps64 ≤ sw) : qmax (qabs sw) eps64 * sgn sw = sw := by
+  unfold qmax qabs sgn
+  unfold eps64 at *
+  split <;> split <;> (try split) <;> grind
+
+/-! extremum -/
+theorem foldl_pick_mem (pick : Q → Q → Q) (hsel : ∀ a b, pick a b = a ∨ pick a b = b) (xs : List Q) (x : Q) :
+    xs.foldl pick x ∈ x :: xs := by
+  induction xs generalizing x with
+  | nil => simp
+  | cons y xs ih =>
+    simp only [List.foldl_cons]
+    have := ih (pick x y)
+    rcases List.mem_cons.mp this with h | h
+    · rw [h]; rcases hsel x y with e | e <;> rw [e] <;> simp
+    · simp [h]
+
+theorem foldl_pick_bound (pick : Q → Q → Q) (le : Q → Q → Prop) (hrefl : ∀ a, le a a)
+    (htrans : ∀ a b c, le a b → le b c → le a c)
+    (hub : ∀ a b, le a (pick a b) ∧ le b (pick a b)) (xs : List Q) (x : Q) :
+    ∀ z ∈ x :: xs, le z (xs.foldl pick x) := by
+  induction xs generalizing x with
+  | nil => intro z hz; simp at hz; subst hz; exact hrefl _
+  | cons y xs ih =>
+    intro z hz
+    simp only [List.foldl_cons]
+    have hb := ih (pick x y)
+    rcases List.mem_cons.mp hz with rfl | hz
+    · exact htrans _ _ _ (hub z y).1 (hb _ (List.mem_cons_self ..))
+    · rcases List.mem_cons.mp hz with rfl | hz
+      · exact htrans _ _ _ (hub x z).2 (hb _ (List.mem_cons_self ..))
+      · exact hb z (List.mem_cons_of_mem _ hz)
+
+theorem qmax_sel (a b : Q) : qmax a b = a ∨ qmax a b = b := by unfold qmax; split <;> simp
+theorem qmin_sel (a b : Q) : qmin a b = a ∨ qmin a b = b := by unfold qmin; split <;> simp
+theorem qmax_ub (a b : Q) : a ≤ qmax a b ∧ b ≤ qmax a b := by unfold qmax; split <;> grind
+theorem qmin_lb (a b : Q) : qmin a b ≤ a ∧ qmin a b ≤ b := by unfold qmin; split <;> grind
+
+theorem reduce_max (xs : List Q) (m : Q) (h : reduceBy qmax xs = some m) : Spec.Agg.IsMax xs m := by
+  cases xs with
+  | nil => simp [reduceBy] at h
+  | cons x xs =>
+    simp only [reduceBy, Option.some.injEq] at h
+    subst h
+    exact ⟨foldl_pick_mem qmax qmax_sel xs x,
+      foldl_pick_bound qmax (· ≤ ·) (fun _ => Rat.le_refl) (fun _ _ _ => Rat.le_trans) qmax_ub xs x⟩
+
+theorem reduce_min (xs : List Q) (m : Q) (h : reduceBy qmin xs = some m) : Spec.Agg.IsMin xs m := by
+  cases xs with
+  | nil => simp [reduceBy] at h
+  | cons x xs =>
+    simp only [reduceBy, Option.some.injEq] at h
+    subst h
+    exact ⟨foldl_pick_mem qmin qmin_sel xs x,
+      foldl_pick_bound qmin (fun a b => b ≤ a) (fun _ => Rat.le_refl) (fun _ _ _ h₁ h₂ => Rat.le_trans h₂ h₁) qmin_lb xs x⟩
+
+/-- the maximum is unique. -/
+theorem isMax_unique {l : List Q} {a b : Q} (ha : Spec.Agg.IsMax l a) (hb : Spec.Agg.IsMax l b) : a = b :=
+  Rat.le_antisymm (hb.2 a ha.1) (ha.2 b hb.1)
+theorem isMin_unique {l : List Q} {a b : Q} (ha : Spec.Agg.IsMin l a) (hb : Spec.Agg.IsMin l b) : a = b :=
+  Rat.le_antisymm (ha.2 b hb.1) (hb.2 a ha.1)
+
+theorem isMax_append {l₁ l₂ : List Q} {a b : Q} (ha : Spec.Agg.IsMax l₁ a) (hb : Spec.Agg.IsMax l₂ b) :
+    Spec.Agg.IsMax (l₁ ++ l₂) (qmax a b) := by
+  refine ⟨?_, ?_⟩
+  · rcases qmax_sel a b with e | e <;> rw [e] <;> simp [ha.1, hb.1]
+  · intro x hx
+    rcases List.mem_append.mp hx with h | h
+    · exact Rat.le_trans (ha.2 x h) (qmax_ub a b).1
+    · exact Rat.le_trans (hb.2 x h) (qmax_ub a b).2
+
+theorem isMin_append {l₁ l₂ : List Q} {a b : Q} (ha : Spec.Agg.IsMin l₁ a) (hb : Spec.Agg.IsMin l₂ b) :
+    Spec.Agg.IsMin (l₁ ++ l₂) (qmin a b) := by
+  refine ⟨?_, ?_⟩
+  · rcases qmin_sel a b with e | e <;> rw [e] <;> simp [ha.1, hb.1]
+  · intro x hx
+    rcases List.mem_append.mp hx with h | h
+    · exact Rat.le_trans (qmin_lb a b).1 (ha.2 x h)
+    · exact Rat.le_trans (qmin_lb a b).2 (hb.2 x h)
+
+
+
+/-! ### MSE -/
+theorem sseCol_weighted (ws xs ts : List Q) :
+    sseCol (some ws) xs ts = Spec.Agg.wsum ws (List.zipWith (fun x t => (t - x) * (t - x)) xs ts) := by
+  simp [sseCol, Spec.Agg.wsum, zipWith_mul_comm ws]
+
+theorem mseRaw_eq (sse : List Q) (sw : Q) (h : eps64 ≤ sw) :
+    mseRaw sse sw = (sse.map (· / sw)).map XQ.val := by
+  have h0 : sw ≠ 0 := by
+    intro h0; rw [h0] at h; unfold eps64 at h; grind
+  simp [mseRaw, mse_den sw h, xdiv_val _ _ h0, Function.comp_def]
+
+theorem eps64_le_natCast {n : Nat} (h : n ≠ 0) : eps64 ≤ (n : Q) := by
+  have : (1 : Q) ≤ (n : Q) := by
+    have : 1 ≤ n := Nat.pos_of_ne_zero h
+    exact_mod_cast this
+  unfold eps64; grind
+
+/-! ### R² -/
+theorem tss_eq_scatter (ys : List Q) : Spec.Agg.tss ys = Spec.Agg.scatter ys ys := by
+  simp [Spec.Agg.tss, Spec.Agg.scatter, List.zipWith_self]
+
+/-- **`Σy² − (Σy)²/n = Σ(y−ȳ)²`** -/
+theorem tss_raw (ys : List Q) (h : ys ≠ []) :
+    (ys.map fun y => y * y).sum - ys.sum * ys.sum / (ys.length : Q) = Spec.Agg.tss ys := by
+  rw [tss_eq_scatter, scatter_raw ys ys rfl (by simpa using h), List.zipWith_self]
+
+theorem xsub_one_div (r t : Q) (ht : t ≠ 0) : xsub (.val 1) (xdiv r t) = .val (1 - r / t) := by
+  simp [xsub, xdiv_val _ _ ht, xneg, xadd]; grind
+
+theorem r2_raw_list (n : Nat) (hn : n ≠ 0) : ∀ (xc tc : Mat), (∀ t ∈ tc, t.length = n ∧ Spec.Agg.tss t ≠ 0) →
+    r2Raw (r2Update xc tc).2.2 (r2Tss (r2Update xc tc).1 (r2Update xc tc).2.1 (n : Q))
+      = (List.zipWith Spec.Agg.r2 xc tc).map XQ.val
+  | [], _, _ => by simp [r2Update, r2Raw]
+  | _ :: _, [], _ => by simp [r2Update, r2Raw, r2Tss]
+  | x :: xc, t :: tc, h => by
+    have ih := r2_raw_list n hn xc tc (fun t' ht' => h t' (List.mem_cons_of_mem _ ht'))
+    have ht := h t (List.mem_cons_self ..)
+    have hne : t ≠ [] := by intro e; rw [e] at ht; exact hn ht.1.symm
+    simp only [r2Update, r2Raw, r2Tss, List.map_cons, List.zipWith_cons_cons] at ih ⊢
+    rw [ih]
+    have := tss_raw t hne
+    rw [ht.1] at this
+    rw [this, xsub_one_div _ _ ht.2]
+    rfl
+
+theorem tss_list (n : Nat) (hn : n ≠ 0) (xc tc : Mat) (h : ∀ t ∈ tc, t.length = n) :
+    r2Tss (r2Update xc tc).1 (r2Update xc tc).2.1 (n : Q) = tc.map Spec.Agg.tss := by
+  simp only [r2Update, r2Tss, zipWith_map_same]
+  apply List.map_congr_left; intro t ht
+  have hne : t ≠ [] := by intro e; have := h t ht; rw [e] at this; exact hn this.symm
+  have := tss_raw t hne
+  rw [h t ht] at this
+  exact this
+
+theorem zipWith_zipWith_map {α β γ δ ε : Type} (f : γ → δ → ε) (g : α → β → γ) (k : β → δ) :
+    ∀ (a : List α) (b : List β), List.zipWith f (List.zipWith g a b) (b.map k) = List.zipWith (fun x y => f (g x y) (k y)) a b
+  | [], _ => by simp
+  | _ :: _, [] => by simp
+  | x :: a, y :: b => by simp [zipWith_zipWith_map f g k a b]
+
+theorem r2Adjust_val (n : Q) (p : Nat) (r : Q) (h : n - (p : Q) - 1 ≠ 0) :
+    r2Adjust n p (.val r) = .val (Spec.Agg.r2adj n p r) := by
+  simp [r2Adjust, xsub, xneg, xadd, xmul, xdivX, xdiv_val _ _ h, Spec.Agg.r2adj]; grind
+
+theorem xsum_weighted_vals (l t : List Q) (T : Q) (hT : T ≠ 0) :
+    xsum (List.zipWith (fun ri ti => xdivX (xmul ri (.val ti)) (.val T)) (l.map XQ.val) t)
+      = .val ((List.zipWith (· * ·) l t).sum / T) := by
+  have : List.zipWith (fun ri ti => xdivX (xmul ri (.val ti)) (.val T)) (l.map XQ.val) t
+      = ((List.zipWith (· * ·) l t).map (· / T)).map XQ.val := by
+    rw [List.zipWith_map_left, List.map_map, List.map_zipWith]
+    congr 1
+    funext a b
+    simp [xmul, xdivX, xdiv_val _ _ hT]
+  rw [this, xsum_vals, sum_map_div]
+
+
+
+/-! ### entropy / perplexity helpers -/
+theorem sum_map_neg (l : List Q) : (l.map fun a => -a).sum = -l.sum := by
+  induction l with
+  | nil => simp
+  | cons a l ih => simp [ih]; grind
+
+theorem qmax_of_le (a b : Q) (h : b ≤ a) : qmax a b = a := by
+  unfold qmax; split
+  · rename_i h'; exact absurd h (Rat.not_le.mpr h')
+  · rfl
+
+theorem bce_sum (ln exp : Q → Q) (fl : Bool) : ∀ (xs ts ws : List Q),
+    (fl = false → ∀ p ∈ xs.zip ts, -100 ≤ ln p.1 ∧ -100 ≤ ln (1 - p.1)) →
+    (List.zipWith (fun (p : Q × Q) wi => if fl then bceLogit ln exp p.1 p.2 wi else bceProb ln p.1 p.2 wi) (xs.zip ts) ws).sum
+      = Spec.Agg.wsum ws (if fl then List.zipWith (Spec.Agg.ceLogit ln exp) xs ts else List.zipWith (Spec.Agg.ce ln) xs ts)
+  | [], _, _, _ => by cases fl <;> simp [wsum]
+  | _ :: _, [], _, _ => by cases fl <;> simp [wsum]
+  | _ :: _, _ :: _, [], _ => by cases fl <;> simp [wsum]
+  | x :: xs, t :: ts, w :: ws, h => by
+    have ih := bce_sum ln exp fl xs ts ws (fun hf p hp => h hf p (by simp [hp]))
+    cases fl with
+    | true =>
+      simp only [if_true, wsum, List.zip_cons_cons, List.zipWith_cons_cons, List.sum_cons] at ih ⊢
+      rw [ih]; simp [bceLogit, Spec.Agg.ceLogit]
+    | false =>
+      have hc := h rfl (x, t) (by simp)
+      simp only [Bool.false_eq_true, if_false, wsum, List.zip_cons_cons, List.zipWith_cons_cons, List.sum_cons] at ih ⊢
+      rw [ih]
+      simp only [bceProb, Spec.Agg.ce, qmax_of_le _ _ hc.1, qmax_of_le _ _ hc.2]
+      grind
+
+theorem baseline_eq (ln : Q → Q) (pos ex : Q) :
+    bneBaseline ln pos ex = Spec.Agg.H ln (clampQ eps64 (1 - eps64) (pos / ex)) := by
+  simp only [bneBaseline, Spec.Agg.H]; grind
+
+
 end TE.AggL
